@@ -112,9 +112,23 @@ theorem bind_eq_ok {α β} {x : P α} {f : α → P β} {s : Bits} {b : β} {s' 
   | panic => simp
 end P
 
+/-- `n ≤ s.length`, computed without traversing the whole of `s` -/
+def hasAtLeast : Nat → Bits → Bool
+  | 0, _ => true
+  | _+1, [] => false
+  | n+1, _ :: t => hasAtLeast n t
+
+theorem hasAtLeast_iff (n : Nat) (s : Bits) : hasAtLeast n s = true ↔ n ≤ s.length := by
+  induction n generalizing s with
+  | zero => simp [hasAtLeast]
+  | succ n ih =>
+    cases s with
+    | nil => simp [hasAtLeast]
+    | cons b t => simp [hasAtLeast, ih]
+
 /-- `get_n(n)` (the result type is wide enough at every call site) -/
 def readN (n : Nat) : P Nat := fun s =>
-  if n ≤ s.length then .ok (ofBits (s.take n), s.drop n) else .error
+  if hasAtLeast n s then .ok (ofBits (s.take n), s.drop n) else .error
 
 /-- `get()` -/
 def readBit : P Bool := fun s =>
@@ -168,7 +182,7 @@ def readAlignZero : P Unit := fun s =>
 
 /-- read exactly `n` raw bits -/
 def readBits (n : Nat) : P Bits := fun s =>
-  if n ≤ s.length then .ok (s.take n, s.drop n) else .error
+  if hasAtLeast n s then .ok (s.take n, s.drop n) else .error
 
 /-! ### writer -/
 
